@@ -33,6 +33,9 @@ pub fn is_source_ret(i: &Ins) -> bool {
     }
 }
 
+/// Instructions after which the analyzer may not keep a fall-through edge.
+/// (`jal t0, L` never falls through on a machine either, but the statement
+/// only classifies edges; a fall-through edge there is not reported.)
 pub fn never_falls_through(i: &Ins) -> bool {
     is_source_ret(i)
         || matches!(i.mn.as_str(), "j" | "b" | "jr")
